@@ -29,6 +29,10 @@ _TAG = re.compile(r"<[^>]+>")
 FIXED_TIME = datetime.datetime(2021, 2, 3, 4, 5, 6)
 
 
+class Boom(Exception):
+    pass
+
+
 def norm(stream):
     return _ID.sub("\x1b]8;id=X;", stream)
 
@@ -186,7 +190,8 @@ def rand_op(rng, allow_capture=True):
         return ["control", rng.choice(["\x1b[1A", "\x1b[2K", "\r"])]
     if r < 0.83 and allow_capture:
         subs = [rand_op(rng, False) for _ in range(rng.randint(1, 3))]
-        return ["capture", [o for o in subs if not o[0].startswith("export")] or [["line", 1]]]
+        return ["capture" if rng.random() < 0.8 else "capture_raises",
+                [o for o in subs if not o[0].startswith("export")] or [["line", 1]]]
     if r < 0.92:
         return ["export_text", {"clear": rng.random() < 0.5, "styles": rng.random() < 0.5, "via_file": rng.random() < 0.25}]
     return ["export_html", {"clear": rng.random() < 0.5, "inline_styles": rng.random() < 0.5, "via_file": rng.random() < 0.25}]
@@ -269,13 +274,32 @@ def wl_histories(ctx, rng, case_no):
         log.append(op_json(op))
         k = op[0]
         wit = {"config": cfg, "log": log}
-        if k == "capture":
+        if k in ("capture", "capture_raises"):
             before = main.file.getvalue()
             twin_before = len(twin.file.getvalue())
-            with main.capture() as cap:
-                for sub in op[1]:
-                    apply(main, sub)
-            got = cap.get()
+            if k == "capture":
+                with main.capture() as cap:
+                    for sub in op[1]:
+                        apply(main, sub)
+            else:
+                # the block is left by an exception after it has printed: the exception propagates, and the
+                # capture still holds (and the file still lacks) what was printed inside
+                ctx.count("mon.capture_left_by_exception")
+                try:
+                    with main.capture() as cap:
+                        for sub in op[1]:
+                            apply(main, sub)
+                        raise Boom("inside capture")
+                except Boom:
+                    pass
+                else:
+                    ctx.violation("exception-swallowed-by-capture-block", wit)
+                    return
+            try:
+                got = cap.get()
+            except Exception as e:
+                ctx.violation("capture-result-unavailable-after-exception:%s" % type(e).__name__, dict(wit, error=repr(e)))
+                return
             # keep history-dependent state (LogRender omits a timestamp equal to the previous one) in step
             with ref.capture():
                 for sub in op[1]:
